@@ -1,0 +1,90 @@
+//! Verification hooks, compiled only with the cargo feature `verif-hooks`.
+//!
+//! Thin public wrappers around crate-private functions so that the external checks
+//! (kept outside this repository) can call the real code in-process. Nothing here is
+//! used by rustfmt itself and nothing changes behaviour.
+#![allow(missing_docs, unreachable_pub)]
+
+/// Diff family: `make_diff`, `ModifiedLines`, and the emitters.
+pub mod diff {
+    use std::path::PathBuf;
+
+    use crate::config::{Config, EmitMode, FileName, Verbosity};
+    use crate::emitter::FormattedFile;
+    use crate::rustfmt_diff::{self, DiffLine, ModifiedLines};
+
+    #[derive(Debug, Clone, PartialEq, Eq)]
+    pub enum Line {
+        Context(String),
+        Expected(String),
+        Resulting(String),
+    }
+
+    #[derive(Debug, Clone, PartialEq, Eq)]
+    pub struct Hunk {
+        pub line_number: u32,
+        pub line_number_orig: u32,
+        pub lines: Vec<Line>,
+    }
+
+    /// `rustfmt_diff::make_diff(expected = original, actual = formatted, context_size)`.
+    pub fn make_diff(original: &str, formatted: &str, context_size: usize) -> Vec<Hunk> {
+        rustfmt_diff::make_diff(original, formatted, context_size)
+            .into_iter()
+            .map(|m| Hunk {
+                line_number: m.line_number,
+                line_number_orig: m.line_number_orig,
+                lines: m
+                    .lines
+                    .into_iter()
+                    .map(|l| match l {
+                        DiffLine::Context(s) => Line::Context(s),
+                        DiffLine::Expected(s) => Line::Expected(s),
+                        DiffLine::Resulting(s) => Line::Resulting(s),
+                    })
+                    .collect(),
+            })
+            .collect()
+    }
+
+    /// `ModifiedLines::from(make_diff(original, formatted, 0))`, as the emitter builds it.
+    pub fn modified_lines(original: &str, formatted: &str) -> ModifiedLines {
+        ModifiedLines::from(rustfmt_diff::make_diff(original, formatted, 0))
+    }
+
+    pub fn xml_escape(s: &str) -> String {
+        crate::emitter::verif_xml_escape(s)
+    }
+
+    /// Runs the emitter selected by `create_emitter` for (`mode`, `make_backup`) on one
+    /// in-memory file: header, file, footer. Returns the bytes written to `out` and
+    /// `has_diff`. For the two Files emitters the file named `filename` is written on disk.
+    pub fn emit(
+        mode: EmitMode,
+        make_backup: bool,
+        list_names: bool,
+        filename: &str,
+        original: &str,
+        formatted: &str,
+    ) -> std::io::Result<(Vec<u8>, bool)> {
+        let mut config = Config::default();
+        config.set().emit_mode(mode);
+        config.set().make_backup(make_backup);
+        config.set().print_misformatted_file_names(list_names);
+        config.set().verbose(Verbosity::Quiet);
+        let mut emitter = crate::create_emitter(&config);
+        let mut out: Vec<u8> = Vec::new();
+        emitter.emit_header(&mut out)?;
+        let name = FileName::Real(PathBuf::from(filename));
+        let res = emitter.emit_formatted_file(
+            &mut out,
+            FormattedFile {
+                filename: &name,
+                original_text: original,
+                formatted_text: formatted,
+            },
+        )?;
+        emitter.emit_footer(&mut out)?;
+        Ok((out, res.has_diff))
+    }
+}
